@@ -23,6 +23,12 @@ def gen(rng, n):
         to = [rng.choice(ADDRS) for _ in range(rng.choice([1, 1, 2, 3, 5]))]
         m = msgs[i % len(msgs)] if i < 3 * len(msgs) else bytes(rng.getrandbits(8) for _ in range(rng.choice([1, 50, 3000])))
         out.append((fr, to, m))
+    # recipients that differ only in letter case, and exact repeats, are separate entries of the envelope: every one is delivered to
+    out.append((b"a@x.org", [b"Info@example.com", b"info@example.com", b"INFO@EXAMPLE.COM"], b"case\r\n"))
+    out.append((None, [b"dup@example.com", b"dup@example.com", b"other@example.com", b"dup@example.com"], b"dup\r\n"))
+    out.append((b"A@X.org", [b"a@x.org", b"A@x.org"], b"from-vs-to\r\n"))
+    # larger than any single write the runtime accepts in one go (tokio's file write caps a call at 2 MiB)
+    out.append((b"a@x.org", [b"b@y.org"], (b"0123456789abcdef" * 8 + b"\r\n") * 26000))
     return out
 
 
@@ -137,6 +143,25 @@ def run(ctx):
         want_args = "|".join(hx(x) for x in ([b"-i"] + ([b"-f", fr] if fr is not None else []) + [b"--"] + to))
         if m.split("\t")[0] != want_args:
             cbad.append((-1, "model sendmail_args differs from the documented argument vector"))
+    # ---- SMTP: the envelope on the wire is the envelope given - one RCPT per entry, in order, repeats and case variants included
+    env_cases = [c for c in cases if len(c[2]) < 5000][:25] + [c for c in cases[-4:] if len(c[2]) < 5000]
+    escs = []
+    for fr, to, msg in env_cases:
+        for fl in ("sync", "tokio"):
+            script = [step("none", b"220 hi\r\n"), step("line", b"250-srv\r\n250-8BITMIME\r\n250 SMTPUTF8\r\n")] + [step("line", b"250 ok\r\n")] * (1 + len(to)) + \
+                     [step("line", b"354 go\r\n"), step("data", b"250 queued\r\n"), step("line", b"221 bye\r\n")]
+            op = {"op": "tsend", "to": [hx(t) for t in to], "msg": hx(msg)}
+            if fr is not None:
+                op["from"] = hx(fr)
+            escs.append({"id": 900000 + len(escs), "flavor": fl, "timeout_ms": 3000, "servers": [script], "ops": [{"op": "transport", "hello": hx(b"c18.test")}, op, {"op": "tdrop"}]})
+    for sc, r, (fr, to, msg) in zip(escs, run_scenarios(escs), [c for c in env_cases for _ in (0, 1)]):
+        ctx.count()
+        srv = (r.get("servers") or [None])[0]
+        Rs = events_R(srv) if srv else []
+        got = [x.rstrip(b"\r\n").split(b" BODY=")[0].split(b" SMTPUTF8")[0] for x in Rs[1:2 + len(to)]]
+        want = [b"MAIL FROM:<" + (fr or b"") + b">"] + [b"RCPT TO:<" + t + b">" for t in to]
+        if got != want:
+            obad.append((-1, "SMTP (%s): the envelope on the wire is %r, the envelope given is %r" % (sc["flavor"], got, want)))
     # ---- SMTP: sync and tokio clients agree with each other (and the model) on the fault table
     scs = []
     for nrcpt in (1, 2):
